@@ -89,7 +89,23 @@ func runsFor(prop, tier string) []run {
 		wire := fewP
 		wire.ViaRPC = true
 		wire.Alphabet = []string{"W", "SnapU", "SnapA", "Rm", "ReopenP", "Reload", "R"}
+		// every one of the 300 (offset, length) write shapes of a 3-block volume as the next operation on chains that
+		// already have data spread over several files (all 300 read shapes are checked after each)
+		var all [][2]int
+		for off := 0; off < 24; off++ {
+			for n := 1; off+n <= 24; n++ {
+				all = append(all, [2]int{off, n})
+			}
+		}
+		every := chain
+		every.Alphabet = []string{"W"}
+		every.WShapes = all
+		everyP := chainP
+		everyP.Alphabet = []string{"W"}
+		everyP.WShapes = all
 		return []run{
+			{"3blk-every-write-shape-on-3snap-chain-nopunch", every, pick(1, 2), minutes(pickf(0.4, 6))},
+			{"3blk-every-write-shape-on-4snap-chain-punch", everyP, pick(1, 2), minutes(pickf(0.4, 6))},
 			{"3blk-punch-through-rpc", wire, pick(3, 5), minutes(pickf(0.4, 4))},
 			{"3blk-nopunch", few, pick(4, 6), minutes(pickf(0.45, 7))},
 			{"3blk-punch", fewP, pick(4, 6), minutes(pickf(0.45, 7))},
